@@ -81,13 +81,17 @@ func evalC04(c c04Case) *Failure {
 	if o.Panic != nil {
 		return failf("c04|panic|"+panicKey(o), "%s: panic: %v", what, o.Panic)
 	}
-	out := conn.Out()
+	return c04CheckOut(what, conn.Out(), len(c.Stream))
+}
+
+// c04CheckOut: the bytes written on a connection are exactly one well-formed frame per request.
+func c04CheckOut(what string, out []byte, nreq int) *Failure {
 	frames, _, err := resp.DecodeAll(out)
 	if err != nil {
 		return failf("c04|malformed", "%s: the bytes written are not a concatenation of complete RESP values (%v): %q", what, err, clip(out))
 	}
-	if len(frames) != len(c.Stream) {
-		return failf("c04|frame-count", "%s: %d reply frames for %d requests: %q", what, len(frames), len(c.Stream), clip(out))
+	if len(frames) != nreq {
+		return failf("c04|frame-count", "%s: %d reply frames for %d requests: %q", what, len(frames), nreq, clip(out))
 	}
 	for i, f := range frames {
 		bad := false
@@ -103,7 +107,66 @@ func evalC04(c c04Case) *Failure {
 	return nil
 }
 
-func init() { register("c04.stream", evalC04) }
+// c04Slow: connection A reads its replies slowly (every reply write is held back) while other connections are served;
+// what A finally receives must still be one well-formed frame per request, byte for byte what was serialized for it.
+type c04Slow struct {
+	Handler string       `json:"handler"`
+	Stream  []resp.Value `json:"stream"` // A's requests (command arrays)
+	Peer    [][]string   `json:"peer"`   // the peer's commands, issued while each of A's replies is held back
+}
+
+func evalC04Slow(c c04Slow) *Failure {
+	var srv *redis.Server
+	if c.Handler == "example" {
+		srv = exserver.NewServer().Server
+	} else {
+		srv, _ = newRecServer()
+	}
+	var ss []string
+	for _, v := range c.Stream {
+		ss = append(ss, v.String())
+	}
+	what := fmt.Sprintf("slow reader: stream %v, peer %v (handler %s)", ss, c.Peer, c.Handler)
+	m, err := connsim.NewMulti(srv, 2, serveTimeout())
+	if err != nil {
+		return failf("harness|multi", "%v", err)
+	}
+	defer m.CloseAll()
+	npeer := 0
+	for _, req := range c.Stream {
+		m.Conns[0].BlockWrites = true
+		m.Conns[0].Feed(req.Bytes())
+		if m.Conns[0].WaitWriteBlocked(serveTimeout()) {
+			for _, pc := range c.Peer {
+				if _, _, err := m.Step(1, resp.Cmd(pc...).Bytes()); err != nil {
+					return stallFailure("c04|peer", what)
+				}
+				npeer++
+			}
+		}
+		m.Conns[0].UnblockWrites()
+		if _, _, err := m.Step(0, nil); err != nil {
+			return stallFailure("c04", what)
+		}
+		for i := range m.Conns {
+			if o := m.Outcome(i); o != nil && o.Panic != nil {
+				return failf("c04|panic|"+panicKey(*o), "%s: panic: %v", what, o.Panic)
+			}
+		}
+	}
+	if before, after, ok := m.Conns[0].Mutated(); ok {
+		return failf("c04|reply-bytes-changed-in-flight", "%s: a reply was %q when its write began and %q when it was delivered", what, clip(before), clip(after))
+	}
+	if f := c04CheckOut(what, m.Conns[0].Out(), len(c.Stream)); f != nil {
+		return f
+	}
+	return c04CheckOut(what+" [peer]", m.Conns[1].Out(), npeer)
+}
+
+func init() {
+	register("c04.stream", evalC04)
+	register("c04.slow", evalC04Slow)
+}
 
 var hostile = []string{"\r\n+OK\r\n", "\r\n:1\r\n", "\r\n$-1\r\n", "a\r\nb", "\r", "\n", "x\r\n-ERR y\r\n", "\r\n*1\r\n$1\r\na\r\n", "%s%d", "'", "v"}
 
@@ -277,7 +340,7 @@ func genC04Case(rt *rapid.T, avoid func(string) bool) (c04Case, map[string]bool)
 func TestC04(t *testing.T) {
 	h := newHarness(t, "C04", "client streams of 1..6 valid RESP values of every type: command arrays with hostile arguments (all byte values, CRLF followed by forged +OK/:1/$-1 frames) in names, keys and values; "+
 		"non-array top-level values; arrays whose first element is null, an integer, an error, a nested or empty array; empty arrays. Handler = recording double scripted with arbitrary value trees, nil messages, "+
-		"errors with arbitrary text, message+error (for pass-through commands), or the bundled example store (stored values echoed back). Oracle: the whole output decodes under the strict decoder into exactly one frame per request, "+
+		"errors with arbitrary text, message+error (for pass-through commands), or the bundled example store (stored values echoed back). A second generator holds back every reply write of one connection (a slow reader) while a peer connection is served, then lets it through: the bytes delivered must be the bytes serialized. Oracle: the whole output decodes under the strict decoder into exactly one frame per request, "+
 		"no status/error frame carries CR or LF. Non-trivial: CR/LF in a position that can reach a reply, a request that is not an array of bulks, or a nil/error handler result. Distinct = distinct (stream, script).")
 	defer h.Finish()
 	h.Probes()
@@ -301,5 +364,37 @@ func TestC04(t *testing.T) {
 			h.Col.Sample(map[string]any{"stream": ss, "handler": c.Handler, "scripted_results": len(c.Results)})
 		}
 		h.Fail(rt, "c04.stream", c, evalC04(c))
+	})
+
+	h.Rapid("slow-reader", h.N(1500, 30000), func(rt *rapid.T) {
+		c := c04Slow{Handler: rapid.SampledFrom([]string{"example", "recorder"}).Draw(rt, "handler")}
+		arg := func(label string) string {
+			if rapid.Bool().Draw(rt, label+"-hostile") {
+				return genHostile(rt)
+			}
+			return strings.Repeat(rapid.SampledFrom([]string{"A", "xy", "\r\n"}).Draw(rt, label+"-motif"), rapid.SampledFrom([]int{1, 8, 64, 700}).Draw(rt, label+"-rep"))
+		}
+		for i, n := 0, rapid.IntRange(1, 3).Draw(rt, "nreq"); i < n; i++ {
+			var cmd []string
+			switch rapid.IntRange(0, 4).Draw(rt, "acmd") {
+			case 0:
+				cmd = []string{"ECHO", arg("echo")}
+			case 1:
+				cmd = []string{"SET", "k", arg("set")}
+			case 2:
+				cmd = []string{"GET", "k"}
+			case 3:
+				cmd = []string{"NOSUCH" + arg("name")}
+			default:
+				cmd = []string{"MGET", "k", "k", "missing"}
+			}
+			c.Stream = append(c.Stream, resp.Cmd(cmd...))
+		}
+		for i, n := 0, rapid.IntRange(1, 3).Draw(rt, "npeer"); i < n; i++ {
+			c.Peer = append(c.Peer, rapid.SampledFrom([][]string{{"PING"}, {"ECHO", "peer"}, {"GET", "k"}, {"SET", "p", "1"}, {"DEL", "k"}, {"NOSUCH"}}).Draw(rt, "pcmd"))
+		}
+		data, _ := resp.EncodeAll(c.Stream)
+		h.Col.Case(true, append(data, []byte(fmt.Sprint(c.Handler, c.Peer))...), "slow-reader", "handler:"+c.Handler)
+		h.Fail(rt, "c04.slow", c, evalC04Slow(c))
 	})
 }
